@@ -369,7 +369,7 @@ impl Fm {
         let e = self.elems[ei].label;
         let a = self.node(e);
         let req = match op {
-            "entry_or_insert" | "entry_insert" | "occupied_insert" | "vacant_insert" | "get_mut_set" => format!("{} {} {} {} {}", op, kind(attr), e, key, val.wire()),
+            "entry_or_insert" | "entry_insert" | "occupied_insert" | "vacant_insert" | "get_mut_set" | "entry_or_insert_with" | "occupied_into_mut" => format!("{} {} {} {} {}", op, kind(attr), e, key, val.wire()),
             "entry_or_default" => format!("{} {} {}", op, e, key),
             "entry_and_modify" => format!("{} {} {} {} {}", op, kind(attr), e, key, arg.wire()),
             "entry_and_modify_or_insert" => format!("{} {} {} {} {} {}", op, kind(attr), e, key, arg.wire(), val.wire()),
@@ -380,6 +380,8 @@ impl Fm {
         let xot = &mut self.s.xot;
         let vocab = &self.s.vocab;
         let mut found: Option<bool> = None;
+        // `or_insert_with`: did the closure run, and the value seen through the returned `&mut V`
+        let mut with: Option<(bool, Pay)> = None;
         let r: Option<()> = if attr {
             let name = vocab.name(key);
             let v = match &val { Pay::S(s) => s.clone(), _ => String::new() };
@@ -393,6 +395,8 @@ impl Fm {
                 "occupied_insert" => guarded(|| { let mut m = xot.attributes_mut(a); if let Entry::Occupied(mut o) = m.entry(name) { o.insert(v); } }),
                 "vacant_insert" => guarded(|| { let mut m = xot.attributes_mut(a); if let Entry::Vacant(va) = m.entry(name) { va.insert(v); } }),
                 "entry_remove" => guarded(|| { let mut m = xot.attributes_mut(a); if let Entry::Occupied(o) = m.entry(name) { o.remove(); } }),
+                "entry_or_insert_with" => { let r = guarded(|| { let mut m = xot.attributes_mut(a); let mut called = false; let seen = m.entry(name).or_insert_with(|| { called = true; v }).clone(); (called, Pay::S(seen)) }); with = r.clone(); r.map(|_| ()) }
+                "occupied_into_mut" => { let r = guarded(|| { let mut m = xot.attributes_mut(a); match m.entry(name) { Entry::Occupied(o) => { *o.into_mut() = v; true } Entry::Vacant(_) => false } }); found = r; r.map(|_| ()) }
                 _ => { let r = guarded(|| { let mut m = xot.attributes_mut(a); match m.get_mut(name) { Some(x) => { *x = v; true } None => false } }); found = r; r.map(|_| ()) }
             }
         } else {
@@ -407,12 +411,18 @@ impl Fm {
                 "occupied_insert" => guarded(|| { let mut m = xot.namespaces_mut(a); if let Entry::Occupied(mut o) = m.entry(p) { o.insert(v); } }),
                 "vacant_insert" => guarded(|| { let mut m = xot.namespaces_mut(a); if let Entry::Vacant(va) = m.entry(p) { va.insert(v); } }),
                 "entry_remove" => guarded(|| { let mut m = xot.namespaces_mut(a); if let Entry::Occupied(o) = m.entry(p) { o.remove(); } }),
+                "entry_or_insert_with" => { let r = guarded(|| { let mut m = xot.namespaces_mut(a); let mut called = false; let seen = *m.entry(p).or_insert_with(|| { called = true; v }); (called, Pay::N(crate::tree::ns_num(seen))) }); with = r.clone(); r.map(|_| ()) }
+                "occupied_into_mut" => { let r = guarded(|| { let mut m = xot.namespaces_mut(a); match m.entry(p) { Entry::Occupied(o) => { *o.into_mut() = v; true } Entry::Vacant(_) => false } }); found = r; r.map(|_| ()) }
                 _ => { let r = guarded(|| { let mut m = xot.namespaces_mut(a); match m.get_mut(p) { Some(x) => { *x = v; true } None => false } }); found = r; r.map(|_| ()) }
             }
         };
         let resp = match (r, op, found) {
             (None, _, _) => "panic".to_string(),
-            (Some(()), "get_mut_set", Some(b)) => format!("ok {}", if b { 1 } else { 0 }),
+            (Some(()), "get_mut_set", Some(b)) | (Some(()), "occupied_into_mut", Some(b)) => format!("ok {}", if b { 1 } else { 0 }),
+            (Some(()), "entry_or_insert_with", _) => match &with {
+                Some((called, seen)) => format!("ok {} {}", if *called { 1 } else { 0 }, seen.wire()),
+                None => "panic".to_string(),
+            },
             _ => "ok".to_string(),
         };
         let resp = self.emit_fmap(sink, &req, resp);
@@ -428,9 +438,14 @@ impl Fm {
             "occupied_insert" => "occupiedInsert",
             "vacant_insert" => "vacantInsert",
             "entry_remove" => "entryRemove",
+            "entry_or_insert_with" => "entryOrInsertWith",
+            "occupied_into_mut" => "occupiedIntoMut",
             _ => "getMutSet",
         };
-        sink.stat(&format!("mapop2.{}.{}", ctor, if view.pos(key).is_some() { "occupied" } else { "vacant" }));
+        // the two calls below are no MapOp2 constructors of their own: C11_entry_or_insert_with /
+        // C11_entry_into_mut reduce them to entryOrInsert / getMutSet
+        let family = if matches!(op, "entry_or_insert_with" | "occupied_into_mut") { "entryapi" } else { "mapop2" };
+        sink.stat(&format!("{}.{}.{}", family, ctor, if view.pos(key).is_some() { "occupied" } else { "vacant" }));
         match op {
             "entry_or_insert" | "entry_or_default" => {
                 let d = if op == "entry_or_default" { Pay::S(String::new()) } else { val };
@@ -438,6 +453,18 @@ impl Fm {
                     view.insert(key, d, fresh);
                     self.entries.insert(fresh, Loc::In { elem: ei, attr });
                 }
+            }
+            "entry_or_insert_with" => {
+                // the closure runs exactly for a vacant entry; the reference handed back is the
+                // stored value (the old one when occupied, the closure's when vacant)
+                let vacant = view.pos(key).is_none();
+                if vacant {
+                    view.insert(key, val, fresh);
+                    self.entries.insert(fresh, Loc::In { elem: ei, attr });
+                }
+                let view = &self.elems[ei].views[vi(attr)];
+                let stored = view.get(key).map(|x| x.val.wire()).unwrap_or_else(|| "?".to_string());
+                want = format!("ok {} {}", if vacant { 1 } else { 0 }, stored);
             }
             "entry_and_modify" => {
                 if let Some(i) = view.pos(key) {
@@ -651,6 +678,59 @@ impl Fm {
         self.emit_fmap(sink, &req, resp);
     }
 
+    /// `fmap entry_peek`: the read accessors of the entry API — `Entry::key`, then
+    /// `OccupiedEntry::key` / `get` / `get_mut` resp. `VacantEntry::key` — without any update;
+    /// model-compared, and judged against the reference map.
+    pub fn read_entry_peek(&mut self, sink: &mut Sink, ei: usize, attr: bool, key: usize) {
+        let e = self.elems[ei].label;
+        let a = self.node(e);
+        let xot = &mut self.s.xot;
+        let vocab = &self.s.vocab;
+        let r: Option<String> = if attr {
+            let name = vocab.name(key);
+            guarded(|| {
+                let mut m = xot.attributes_mut(a);
+                let en = m.entry(name);
+                let k0 = name_num(*en.key());
+                match en {
+                    Entry::Occupied(mut o) => {
+                        let k1 = name_num(*o.key());
+                        let g = o.get().clone();
+                        let gm = o.get_mut().clone();
+                        format!("occ {} {} {} {}", k0, k1, enc(&g), enc(&gm))
+                    }
+                    Entry::Vacant(v) => format!("vac {} {}", k0, name_num(*v.key())),
+                }
+            })
+        } else {
+            let p = vocab.prefix(key);
+            guarded(|| {
+                let mut m = xot.namespaces_mut(a);
+                let en = m.entry(p);
+                let k0 = prefix_num(*en.key());
+                match en {
+                    Entry::Occupied(mut o) => {
+                        let k1 = prefix_num(*o.key());
+                        let g = ns_num(*o.get());
+                        let gm = ns_num(*o.get_mut());
+                        format!("occ {} {} {} {}", k0, k1, g, gm)
+                    }
+                    Entry::Vacant(v) => format!("vac {} {}", k0, prefix_num(*v.key())),
+                }
+            })
+        };
+        let resp = r.unwrap_or_else(|| "panic".to_string());
+        let req = format!("entry_peek {} {} {}", kind(attr), e, key);
+        let resp = self.emit_fmap(sink, &req, resp);
+        let view = &self.elems[ei].views[vi(attr)];
+        let want = match view.get(key) {
+            Some(x) => format!("occ {} {} {} {}", key, key, x.val.wire(), x.val.wire()),
+            None => format!("vac {} {}", key, key),
+        };
+        sink.stat(&format!("entryapi.peek.{}", if view.get(key).is_some() { "occupied" } else { "vacant" }));
+        self.expect(sink, "entry_peek", &req, &resp, &want);
+    }
+
     /// `to_string(e)` writes the declarations, then the attributes, each in map order.
     pub fn check_to_string(&mut self, sink: &mut Sink, ei: usize) {
         let e = self.elems[ei].label;
@@ -807,7 +887,7 @@ fn any_val(rng: &mut Rng, attr: bool) -> Pay {
 const OPS: &[(&str, usize)] = &[
     ("insert", 10), ("set", 4), ("remove", 6), ("unset", 3), ("clear", 1), ("new_append", 8), ("new_only", 3), ("append_known", 8),
     ("detach", 4), ("remove_node", 3), ("entry_or_insert", 4), ("entry_or_default", 2), ("entry_and_modify", 4),
-    ("entry_and_modify_or_insert", 4), ("entry_insert", 3), ("occupied_insert", 3), ("vacant_insert", 3), ("entry_remove", 3), ("get_mut_set", 4), ("move", 6), ("noise", 3), ("non_element", 1),
+    ("entry_and_modify_or_insert", 4), ("entry_insert", 3), ("occupied_insert", 3), ("vacant_insert", 3), ("entry_remove", 3), ("get_mut_set", 4), ("entry_or_insert_with", 4), ("occupied_into_mut", 4), ("move", 6), ("noise", 3), ("non_element", 1),
 ];
 
 fn pick_op(rng: &mut Rng) -> &'static str {
@@ -935,6 +1015,13 @@ pub fn one_history(rng: &mut Rng, sink: &mut Sink, n_ops: usize) {
             fm.read_get(sink, ei, a2, any_key(rng, a2));
         }
         if rng.chance(1, 3) {
+            let a2 = rng.chance(1, 2);
+            fm.read_entry_peek(sink, ei, a2, any_key(rng, a2));
+            if fm.dead {
+                return;
+            }
+        }
+        if rng.chance(1, 3) {
             fm.check_to_string(sink, ei);
         }
         if rng.chance(1, 5) {
@@ -965,6 +1052,8 @@ enum XOp {
     GetMut(usize),
     OccInsert(usize),
     VacInsert(usize),
+    OrInsertWith(usize),
+    IntoMut(usize),
 }
 
 fn alphabet(with_entry: bool) -> Vec<XOp> {
@@ -982,6 +1071,8 @@ fn alphabet(with_entry: bool) -> Vec<XOp> {
             v.push(XOp::GetMut(k));
             v.push(XOp::OccInsert(k));
             v.push(XOp::VacInsert(k));
+            v.push(XOp::OrInsertWith(k));
+            v.push(XOp::IntoMut(k));
         }
     }
     v
@@ -1018,6 +1109,8 @@ fn exhaustive(sink: &mut Sink, attr: bool, depth: usize, with_entry: bool) {
                 XOp::GetMut(k) => { fm.step_entry(sink, ei, attr, "get_mut_set", keys[k], val.clone(), val); "get_mut_set" }
                 XOp::OccInsert(k) => { fm.step_entry(sink, ei, attr, "occupied_insert", keys[k], val.clone(), val); "occupied_insert" }
                 XOp::VacInsert(k) => { fm.step_entry(sink, ei, attr, "vacant_insert", keys[k], val.clone(), val); "vacant_insert" }
+                XOp::OrInsertWith(k) => { fm.step_entry(sink, ei, attr, "entry_or_insert_with", keys[k], val.clone(), val); "entry_or_insert_with" }
+                XOp::IntoMut(k) => { fm.step_entry(sink, ei, attr, "occupied_into_mut", keys[k], val.clone(), val); "occupied_into_mut" }
             };
             if fm.dead {
                 break;
@@ -1138,7 +1231,7 @@ pub fn run(seed: u64, count: usize, tier: &str, sink: &mut Sink) {
         "thorough" | "search" => {
             // every history of 5 steps over 3 keys (insert / remove / node-style insert of each
             // key, clear: 10 operations per step) on the attribute view, 4 steps on the namespace
-            // view; 3 steps with the entry API added (16 operations per step), both views
+            // view; 3 steps with the entry API added (31 operations per step), both views
             exhaustive(sink, true, 5, false);
             exhaustive(sink, false, 4, false);
             exhaustive(sink, true, 3, true);
